@@ -18,6 +18,9 @@ The source sequence is spelled (1) as a literal sequence expression, (2) with co
 that PASSED: prefix hygiene), with fresh loop-variable names per nesting level and, as a further
 spelling, with the same name `$x` at every level.  Results are compared element-wise by type tag and
 exact value (NaN by kind).  Outcome classes: value | err(code) | escaped(ExceptionClass) | hang.
+The positional configurations also run on sequences that contain ELEMENT NODES of a fixed document
+(<r><n/><n/><n/></r>, rendered as /r/n[i] and (//n)[i], evaluated with select(root, expr)): no construct
+of this property may re-sort or de-duplicate them.
 
 Second oracle for the SPEC (not for the code): plain Python list operations for the purely positional
 functions (reverse, head, tail, remove, insert-before, subsequence with integer arguments);
@@ -52,18 +55,20 @@ NAMED_CODES = {'FORG0003', 'FORG0004', 'FORG0005'}      # the codes the property
 ALL_GROUPS = {'pos', 'range', 'iter', 'agg', 'cat'}
 TIERS = {
     'quick': [
-        ('pos-u2', dict(MaxDepth=2, MaxLen=4, InitLen=3, UniverseName='u2', GridName='full', Groups={'pos', 'range'})),
+        ('pos-u3n', dict(MaxDepth=2, MaxLen=4, InitLen=3, UniverseName='u3n', GridName='full', Groups={'pos', 'range'})),
         ('vals-u7', dict(MaxDepth=2, MaxLen=4, InitLen=3, UniverseName='u7', GridName='full',
                          Groups={'iter', 'agg', 'cat'})),
         ('agg-u9', dict(MaxDepth=2, MaxLen=4, InitLen=2, UniverseName='u9', GridName='full', Groups={'agg'})),
         ('comp-u4-d2', dict(MaxDepth=3, MaxLen=4, InitLen=2, UniverseName='u4', GridName='small', Groups=ALL_GROUPS)),
     ],
     'thorough': [
-        ('pos-u7', dict(MaxDepth=2, MaxLen=4, InitLen=3, UniverseName='u7', GridName='full', Groups={'pos', 'range'})),
+        ('pos-u3n', dict(MaxDepth=2, MaxLen=4, InitLen=3, UniverseName='u3n', GridName='full', Groups={'pos', 'range'})),
+        ('pos-u4', dict(MaxDepth=2, MaxLen=4, InitLen=3, UniverseName='u4', GridName='full', Groups={'pos', 'range'})),
         ('vals-u9', dict(MaxDepth=2, MaxLen=4, InitLen=3, UniverseName='u9', GridName='full',
                          Groups={'iter', 'agg', 'cat'})),
-        ('comp-u4-d2-full', dict(MaxDepth=3, MaxLen=4, InitLen=2, UniverseName='u4', GridName='full', Groups=ALL_GROUPS)),
+        ('comp-u4-d2', dict(MaxDepth=3, MaxLen=4, InitLen=2, UniverseName='u4', GridName='small', Groups=ALL_GROUPS)),
         ('comp-u3-d3', dict(MaxDepth=4, MaxLen=3, InitLen=1, UniverseName='u3', GridName='small', Groups=ALL_GROUPS)),
+        ('comp-u4-d3', dict(MaxDepth=4, MaxLen=3, InitLen=1, UniverseName='u4', GridName='small', Groups=ALL_GROUPS)),
     ],
 }
 MIN_DISTINCT = {'quick': 50, 'thorough': 50}
@@ -115,6 +120,8 @@ def item_text(it, style: str) -> str:
     if t == 'str':
         s = ''.join(chr(c) for c in it['s']).replace("'", "''")
         return f"xs:string('{s}')" if style == 'ctor' else f"'{s}'"
+    if t == 'node':
+        return f'(//n)[{it["q"][0]}]' if style == 'ctor' else f'/r/n[{it["q"][0]}]'
     if t == 'bool':
         b = it['q'][0] == 1
         if style == 'ctor':
@@ -256,8 +263,26 @@ def _on_alarm(signum, frame):
     raise _Hang()
 
 
+_root = None
+NODE_XML = '<r><n>5</n><n>6</n><n>7</n></r>'
+
+
+def root():
+    global _root
+    if _root is None:
+        from xml.etree import ElementTree
+        _root = ElementTree.XML(NODE_XML)
+    return _root
+
+
 def project(r):
     from elementpath.datatypes import Float
+    if hasattr(r, 'tag') and _root is not None:
+        kids = list(_root)
+        for i, e in enumerate(kids):
+            if e is r:
+                return ('node', Fraction(i + 1))
+        return ('other', 'element:' + str(r.tag))
     if isinstance(r, bool):
         return ('bool', Fraction(int(r)))
     if isinstance(r, int):
@@ -286,7 +311,10 @@ def evaluate(text: str, version: str):
         signal.signal(signal.SIGALRM, _on_alarm)
         signal.alarm(10)
     try:
-        r = elementpath.select(None, text, item=1, parser=parsers()[version])
+        if '/r/n[' in text or '(//n)[' in text:
+            r = elementpath.select(root(), text, parser=parsers()[version])     # sequences with nodes
+        else:
+            r = elementpath.select(None, text, item=1, parser=parsers()[version])
     except _Hang:
         return ('hang', 'alarm')
     except ElementPathError as e:
@@ -315,7 +343,7 @@ def item_mismatch(exp, obs, relax_exact: bool = False):
             q = frac(exp)
             return None if abs(obs[1] - q) <= abs(q) * Fraction(1, 10 ** 15) else 'value'
         return None if obs[1] == frac(exp) else 'value'
-    if t == 'bool':
+    if t in ('bool', 'node'):
         return None if obs[1] == frac(exp) else 'value'
     if t == 'str':
         return None if tuple(obs[1]) == tuple(exp['s']) else 'value'
@@ -334,7 +362,7 @@ def class_key_exp(it):
         return ('num', it['k'], str(frac(it))) if it['k'] == 'fin' else ('num', it['k'], '')
     if it['t'] == 'str':
         return ('str', tuple(it['s']))
-    return ('bool', str(frac(it)))
+    return (it['t'], str(frac(it)))
 
 
 def class_key_obs(o):
@@ -639,7 +667,7 @@ def run(chk: core.Check) -> None:
     core.setup_repo_path()
     chk.assumptions += [
         'spec/SeqModel.tla is the oracle (F&O list model; laws as TLC invariants on every source sequence); python lists cross-check its purely positional functions',
-        'items: xs:integer, xs:decimal, xs:double (finite dyadic, NaN), xs:float, xs:string, xs:boolean; no nodes (select(None, ..., item=1) has no tree)',
+        'items: xs:integer, xs:decimal, xs:double (finite dyadic, NaN), xs:float, xs:string, xs:boolean; element nodes of <r><n/><n/><n/></r> only in the positional configurations (select(root, expr); everything else select(None, expr, item=1)); atomization of nodes is not modelled',
         'distinct-values compared as a multiset of equality classes; min/max ties across int/decimal relaxed under 2.0; quantified expressions with a raising binding and a deciding binding may raise or return; error codes compared only for FORG0003/4/5',
         'doubles compared with the correctly rounded float(Fraction); non-terminating xs:decimal results (avg) compared to 1e-15 relative',
     ]
